@@ -34,6 +34,29 @@ func verifStubWithDetails(s *status.Status, details ...protoadapt.MessageV1) (*s
 
 func verifStubDetails(s *status.Status) []any { return vDetails[s] }
 
+// Under the engine status.Error / status.FromError (protobuf cloning inside) are
+// replaced by a plain carrier of the same (code, message); natively the real
+// functions run.
+type vGRPCErr struct{ st *status.Status }
+
+func (e *vGRPCErr) Error() string              { return "rpc error: " + e.st.Message() }
+func (e *vGRPCErr) GRPCStatus() *status.Status { return e.st }
+
+func verifStubStatusError(c codes.Code, msg string) error {
+	return &vGRPCErr{st: status.New(c, msg)}
+}
+
+func verifStubFromError(err error) (*status.Status, bool) {
+	if err == nil {
+		return nil, true
+	}
+	var ge *vGRPCErr
+	if cerrors.As(err, &ge) {
+		return ge.st, true
+	}
+	return status.New(codes.Unknown, "unknown"), false
+}
+
 func init() {
 	verifRegister("VerifC20Trees", VerifC20Trees)
 	verifRegister("VerifC20RoundTrip", VerifC20RoundTrip)
@@ -47,6 +70,8 @@ type vShadow struct {
 	envSent  bool
 	sentinel bool // contains vSentinel
 	twoW     bool // built with cerrors.Errorf carrying two %w verbs somewhere (the recorded known finding)
+	hasGRPC  bool // contains a raw gRPC status error (as a client sees a server failure)
+	grpc     codes.Code
 }
 
 var vSentinel = cerrors.New("verif sentinel")
@@ -66,11 +91,15 @@ type vBuilder struct {
 	withGRPC    bool
 	joinsOnly   bool
 	plainLeaves bool
+	grpcLeaves  bool
 }
 
 // leaf draws a leaf error.
 func (b *vBuilder) leaf() (error, vShadow) {
 	nLeaf := 6
+	if b.grpcLeaves {
+		nLeaf = 7
+	}
 	if b.plainLeaves {
 		nLeaf = 2
 	}
@@ -86,10 +115,14 @@ func (b *vBuilder) leaf() (error, vShadow) {
 		return context.Canceled, vShadow{canceled: true}
 	case 4:
 		return syscall.ECONNREFUSED, vShadow{envSent: true}
-	default:
+	case 5:
 		// the boundary fallback: reason internal.unknown, category kept
 		e := conduiterr.WithUnknownReason(cerrors.New("unclassified"), codes.NotFound)
 		return e, vShadow{hasCode: true, code: e.Code}
+	default:
+		// a raw gRPC status error, category chosen
+		c := []codes.Code{codes.Unavailable, codes.Internal, codes.NotFound}[verifConcrete(verifChoice("grpc", 3))]
+		return status.Error(c, "rpc failed"), vShadow{hasGRPC: true, grpc: c}
 	}
 
 }
@@ -157,6 +190,9 @@ func joinShadow(a, b vShadow) vShadow {
 	out.envSent = a.envSent || b.envSent
 	out.sentinel = a.sentinel || b.sentinel
 	out.twoW = a.twoW || b.twoW
+	if !a.hasGRPC && b.hasGRPC {
+		out.hasGRPC, out.grpc = true, b.grpc
+	}
 	if !a.hasCode && b.hasCode {
 		out.hasCode, out.code = true, b.code
 	}
@@ -179,6 +215,17 @@ func refExit(s vShadow) int {
 		}
 		return 1
 	}
+	if s.hasGRPC {
+		switch s.grpc {
+		case codes.OK, codes.Canceled:
+			return 0
+		case codes.InvalidArgument, codes.NotFound, codes.AlreadyExists, codes.FailedPrecondition, codes.OutOfRange:
+			return 2
+		case codes.Unavailable, codes.DeadlineExceeded, codes.ResourceExhausted, codes.Unauthenticated, codes.PermissionDenied:
+			return 3
+		}
+		return 1
+	}
 	if s.envSent {
 		return 3
 	}
@@ -187,7 +234,8 @@ func refExit(s vShadow) int {
 
 func VerifC20Trees() {
 	b := &vBuilder{budget: verifParam("nodes", 3), doubleW: verifParam("doubleW", 0) == 1,
-		joinsOnly: verifParam("joinsOnly", 0) == 1, plainLeaves: verifParam("joinsOnly", 0) == 1}
+		joinsOnly: verifParam("joinsOnly", 0) == 1, plainLeaves: verifParam("joinsOnly", 0) == 1,
+		grpcLeaves: verifParam("grpcLeaves", 0) == 1}
 	e, s := b.build()
 	// violations on trees that contain the two-%w constructor are the recorded
 	// known finding: they carry their own label family so that nothing else is
